@@ -1,13 +1,17 @@
 """C13 — LDM queries return exactly the matching objects, identically on both back-ends.
 
 Theorems: lean/Props/C13.lean about lean/FlexModel/Ldm/Filter.lean (dictionary and TinyDB search, ordering) and the
-specification lean/FlexModel/Ldm/Query.lean.
-Tie: stores of CAM / VAM / DENM dictionaries produced by the repository's real coders (with and without optional
-containers) are loaded through IF.LDM.3 into two real facilities (DictionaryDataBase and TinyDB in a temp dir),
-queried through IF.LDM.4 with generated filters / type selections / orders, side by side and against the model
-(`req` = dictionary path, `treq` = TinyDB path).
+specification lean/FlexModel/Ldm/Query.lean (comparisons specified independently of the implementation model).
+Tie: HISTORIES of add / delete / update / clock advance / maintenance (objects with short validity expire) are run
+through IF.LDM.3 on two real facilities (DictionaryDataBase and TinyDB in a temp dir), with CAM / VAM / DENM
+dictionaries produced by the repository's real coders (with and without optional containers) plus synthetic shapes;
+requests (generated filters / type selections / orders) go through IF.LDM.4 in the middle and at the end of the
+history, side by side and against the model (`req` = dictionary path, `treq` = TinyDB path).  Always-on boundary cases:
+objects lacking the attribute x every operator, two-statement AND/OR filters over objects satisfying exactly one
+statement, add/delete(not the newest)/add histories.
 Oracle: `spec_query` below, a brute-force evaluator written from the property text, applied to the REAL content of
-each store (read back from the database).
+each store (read back from the database); the store content itself is judged against the history (`RefStore`: added and
+not deleted, as long as no time passes).
 """
 from __future__ import annotations
 
@@ -33,6 +37,10 @@ ASSUMPTIONS = [
     "comparison of a value with a reference value of another type: == false, != true, ordering not matching",
     "known finding C13-KF1: TinyDB cannot store a message that contains bytes (BIT STRING / OCTET STRING values): "
     "add_provider_data raises TypeError; side-by-side histories therefore use messages without such fields",
+    "reference values are None / bool / int / str / bytes / list / tuple / dict (what decoded messages contain); float "
+    "reference values are neither modelled nor generated",
+    "the two back-ends number the objects differently (in-memory from 0, TinyDB document ids from 1): histories name an "
+    "object by the position of its add; update / delete use the identifier the back-end returned",
     "known finding C13-KF2: ordering by an attribute that a selected object lacks (or whose values are of mixed "
     "types) raises TypeError out of request_data_objects",
     "back-end equality is modulo JSON (TinyDB returns lists where tuples were stored); known finding C13-KF3: filters "
@@ -284,29 +292,20 @@ def gen_order(rng, objs, paths, legacy=False):
                                     for o in objs)]
     if not scal:
         return None
-    n = 1 if rng.random() < 0.6 else 2
+    n = rng.choice([1, 1, 1, 1, 1, 1, 2, 2, 2, 3])
     keys = [[rng.choice(scal), rng.choice("ad")] for _ in range(n)]
     if x > 0.97:
         return {"kind": "U", "keys": []}
     return {"kind": rng.choice("LU"), "keys": keys}
 
 
-def gen_case(rng, pool, force_json=None):
-    """one store and its requests.  json_only: every message storable by TinyDB (side-by-side)"""
-    json_only = force_json if force_json is not None else rng.random() < 0.6
-    cand = [m for m in pool if not (json_only and has_bytes(m))]
-    n = rng.choice([0, 1, 2, 3, 5, 8, 12])
-    objs = [rng.choice(cand) for _ in range(n)]
-    if objs and rng.random() < 0.5:          # make order keys collide / stores more uniform
-        objs += [rng.choice(objs) for _ in range(rng.randrange(1, 4))]
-    paths = sorted({p for o in objs for p, v in L.leaf_paths(o)}) or ["header.stationId"]
-    now = L.now_its(L.UTC0_MS)
-    adds = []
-    for k, o in enumerate(objs):
-        app = type_of(o) if type_of(o) in (1, 2, 16) else 2
-        adds.append(["add", app, now + k, dict(FAR, minC=k % 3), 10 ** 6, L.ser(o)])
+def provider_of(o):
+    return type_of(o) if type_of(o) in (1, 2, 16) else 2
+
+
+def gen_requests(rng, objs, paths, n):
     reqs = []
-    for _ in range(10):
+    for _ in range(n):
         present = sorted({type_of(o) for o in objs if type_of(o) is not None})
         y = rng.random()
         if present and y < 0.5:
@@ -317,7 +316,129 @@ def gen_case(rng, pool, force_json=None):
             types = rng.choice([[2], [16], [1], [2, 16], [1, 2, 16], [1, 2, 16, 14, 3, 20], [14, 3], []])
         legacy = rng.random() < 0.1
         reqs.append(["req", 2, types, None, gen_order(rng, objs, paths, legacy), gen_filter(rng, objs, paths)])
-    return {"json_only": json_only, "adds": adds, "reqs": reqs}
+    return reqs
+
+
+def gen_case(rng, pool, force_json=None):
+    """one history and its requests.  json_only: every message storable by TinyDB (side-by-side).
+    ops: add | delk (delete the k-th added object) | updk (replace the k-th added object's message) | adv | gc | req.
+    About half of the histories only add; the others delete / update / let objects expire between the adds, and
+    ask requests in the middle and at the end."""
+    json_only = force_json if force_json is not None else rng.random() < 0.6
+    cand = [m for m in pool if not (json_only and has_bytes(m))]
+    n = rng.choice([0, 1, 2, 3, 5, 8, 12])
+    objs = [rng.choice(cand) for _ in range(n)]
+    if objs and rng.random() < 0.5:          # make order keys collide / stores more uniform
+        objs += [rng.choice(objs) for _ in range(rng.randrange(1, 4))]
+    if rng.random() < 0.04:
+        objs += [rng.choice(cand) for _ in range(rng.randrange(10, 20))]       # a larger store now and then
+    paths = sorted({p for o in objs for p, v in L.leaf_paths(o)}) or ["header.stationId"]
+    dynamic = bool(objs) and rng.random() < 0.5
+    timed = dynamic and rng.random() < 0.35
+    utc = L.UTC0_MS
+    ops, k = [], 0
+    n_mid = rng.choice([0, 2, 3]) if dynamic else 0
+    mid_at = rng.randrange(1, len(objs) + 1) if (dynamic and objs) else None
+    for i, o in enumerate(objs):
+        validity = rng.choice([1, 2, 3]) if (timed and rng.random() < 0.4) else 10 ** 6
+        ops.append(["add", provider_of(o), L.now_its(utc) + k, dict(FAR, minC=k % 3), validity, L.ser(o)])
+        k += 1
+        if dynamic:
+            x = rng.random()
+            if x < 0.30:
+                # delete an earlier object: mostly NOT the newest one (the identifier of the next insert must stay fresh)
+                j = rng.randrange(0, k) if rng.random() < 0.8 else k - 1
+                ops.append(["delk", provider_of(objs[j]), j])
+            elif x < 0.42:
+                j = rng.randrange(0, k)
+                same = [m for m in cand if type_of(m) == type_of(objs[j])]
+                m = rng.choice(same) if (same and rng.random() < 0.85) else rng.choice(cand)
+                ops.append(["updk", provider_of(objs[j]), j, L.ser(m)])
+            elif x < 0.46:
+                ops.append(["delk", 2, k + 3])                       # an identifier never issued
+            elif timed and x < 0.62:
+                ms = rng.choice([1000, 2000, 3000, 5000])
+                utc += ms
+                ops.append(["adv", ms])
+                if rng.random() < 0.5:
+                    ops.append(["gc"])
+        if mid_at == i + 1 and n_mid:
+            ops += gen_requests(rng, objs[:i + 1], paths, n_mid)
+    ops += gen_requests(rng, objs, paths, 10 - n_mid)
+    return {"json_only": json_only, "ops": ops}
+
+
+def case_ops(case):
+    """histories are {"ops": [...]}; older corpus files have {"adds": [...], "reqs": [...]}"""
+    if "ops" in case:
+        return case["ops"]
+    return list(case["adds"]) + list(case["reqs"])
+
+
+def boundary_cases():
+    """always-on deterministic cases (both back-ends):
+      (a) objects lacking the attribute x every operator x reference values of matching / other value / other type,
+      (b) two-statement AND / OR filters over objects satisfying both / exactly one / none of the statements (also with
+          the second statement on an attribute some objects lack),
+      (c) histories add / delete (not the newest) / add, update, delete of a missing identifier."""
+    now = L.now_its(L.UTC0_MS)
+
+    def add(k, o, app=None):
+        return ["add", app or provider_of(o), now + k, dict(FAR, minC=k % 3), 10 ** 6, L.ser(o)]
+
+    def denm(sid, quality=None, cause=None):
+        d = {"header": {"stationId": sid}, "denm": {"management": {"stationType": 5, "sequenceNumber": sid}}}
+        if quality is not None:
+            d["denm"]["situation"] = {"informationQuality": quality, "eventType": {"ccAndScc": (cause, 1)}, "note": cause}
+        return d
+
+    def vam(sid, sub=None):
+        d = {"header": {"stationId": sid}, "vam": {"vamParameters": {"basicContainer": {"stationType": 1}}}}
+        if sub is not None:
+            d["vam"]["vamParameters"]["vruLowFrequencyContainer"] = {"profileAndSubprofile": ("pedestrian", sub), "sizeClass": sub}
+        return d
+
+    def cam(sid, st, speed, role=None):
+        d = {"header": {"stationId": sid},
+             "cam": {"camParameters": {"basicContainer": {"stationType": st},
+                                       "highFrequencyContainer": ("basicVehicleContainerHighFrequency", {"speedValue": speed})}}}
+        if role is not None:
+            d["cam"]["camParameters"]["lowFrequencyContainer"] = {"vehicleRole": role}
+        return d
+    out = []
+    # (a)
+    store = [denm(1), denm(2, 3, "accident"), denm(3, 0, "roadworks"), denm(4), denm(5, 3, "accident"),
+             vam(6), vam(7, "ordinary"), vam(8, "road-worker"), cam(9, 5, 100)]
+    reqs = []
+    for attr, refs in (("denm.situation.informationQuality", [3, 1, "3", None]),
+                       ("denm.situation.note", ["accident", "acc", 3]),
+                       ("vam.vamParameters.vruLowFrequencyContainer.sizeClass", ["ordinary", "x"]),
+                       ("denm.situation", [None]), ("denm.situation.eventType.ccAndScc", [("accident", 1)])):
+        for opn in ("eq", "ne", "gt", "lt", "ge", "le", "like", "notlike"):
+            for ref in refs:
+                reqs.append(["req", 2, [1, 2, 16], None, None, [[attr, opn, L.ser(ref)]]])
+    out.append({"json_only": True, "ops": [add(k, o) for k, o in enumerate(store)] + reqs})
+    # (b)
+    store = [cam(1, 5, 100), cam(2, 5, 900), cam(3, 6, 900), cam(4, 6, 100), cam(5, 5, 900, "emergency"), cam(6, 5, 100, "default"),
+             vam(7, "ordinary")]
+    st, sp, role = "cam.camParameters.basicContainer.stationType", "header.stationId", "cam.camParameters.lowFrequencyContainer.vehicleRole"
+    stmts = [[st, "eq", L.ser(5)], [sp, "gt", L.ser(3)], [role, "eq", L.ser("default")], [role, "ne", L.ser("default")],
+             [st, "ne", L.ser(5)], [sp, "le", L.ser(2)]]
+    reqs = []
+    for s1 in stmts:
+        for s2 in stmts:
+            if s1 is not s2:
+                for lop in "&|":
+                    reqs.append(["req", 2, [2, 16], None, None, [s1, lop, s2]])
+    out.append({"json_only": True, "ops": [add(k, o) for k, o in enumerate(store)] + reqs})
+    # (c)
+    q = [["req", 2, [1, 2, 16], None, None, None], ["req", 2, [2], None, None, [[st, "eq", L.ser(5)]]]]
+    for victim in (0, 1, 2):
+        ops = [add(0, cam(1, 5, 100)), add(1, cam(2, 5, 200)), add(2, cam(3, 5, 300))] + q
+        ops += [["delk", 2, victim]] + q + [add(3, cam(4, 5, 400))] + q + [["updk", 2, (victim + 1) % 3, L.ser(cam(9, 6, 999))]] + q
+        ops += [["delk", 2, 17], add(4, vam(5, "ordinary")), ["delk", 2, 3]] + q
+        out.append({"json_only": True, "ops": ops})
+    return out
 
 
 PRE = [["regp", 1, [1]], ["regp", 2, [2]], ["regp", 16, [16]], ["regc", 2, [2]]]
@@ -362,39 +483,126 @@ def flt_text(flt):
     return st(flt[0]) if len(flt) == 1 else f"{st(flt[0])} {flt[1]} {st(flt[2])}"
 
 
+class RefStore:
+    """the stored objects as the history of operations determines them (added and not deleted; an update replaces the
+    message of a live object when the type stays the same).  Exact as long as no time passes (`exact`); histories with
+    clock advances / maintenance passes are left to the model correspondence, the side-by-side comparison and C12."""
+
+    def __init__(self):
+        self.rows = []          # [k, app, ts, validity, obj]
+        self.n = 0
+        self.exact = True
+
+    def add(self, op, ok):
+        _, app, ts, loc, validity, objser = op
+        if ok:
+            self.rows.append([self.n, app, ts, validity, L.deser(objser)])
+        self.n += 1
+
+    def delete(self, k):
+        self.rows = [r for r in self.rows if r[0] != k]
+
+    def update(self, k, objser):
+        new = L.deser(objser)
+        for r in self.rows:
+            if r[0] == k and type_name(r[4]) == type_name(new):
+                r[4] = new
+
+    def tokens(self, json_image):
+        return [record_key(app, ts, validity, obj, json_image) for _, app, ts, validity, obj in self.rows]
+
+
+def type_name(obj):
+    t = type_of(obj)
+    return next((k for k in obj if t is not None and type_of({k: 0}) == t), "")
+
+
+def to_json_image(o):
+    if isinstance(o, (list, tuple)):
+        return [to_json_image(x) for x in o]
+    if isinstance(o, dict):
+        return {k: to_json_image(v) for k, v in o.items()}
+    return o
+
+
+def record_key(app, ts, validity, obj, json_image):
+    return f"{int(app)} {int(ts)} {int(validity)} " + L.ser(to_json_image(obj) if json_image else obj)
+
+
+def stored_keys(stored, json_image):
+    return [record_key(d["application_id"], d["timestamp"], d["timeValidity"], d["dataObject"], json_image) for d in stored]
+
+
 def run_case(ctx, case, tag, model_dict=None, model_tiny=None):
-    """load the store into a Dictionary facility (and a TinyDB one when storable), run the requests on both"""
+    """run the history on a Dictionary facility (and a TinyDB one when storable), judge every request on both"""
     backends = ["Dictionary"] + (["TinyDB"] if case["json_only"] else [])
-    answers = {}
+    ops = case_ops(case)
+    reqs = [op for op in ops if op[0] == "req"]
+    answers, waivers = {}, {}
     for be in backends:
         with L.RealLdm(CFG, be) as r:
-            for op in PRE + case["adds"]:
-                ln = r.apply(op)
-                if ln.startswith("x "):
-                    fid = "C13-KF1" if (be == "TinyDB" and op[0] == "add" and has_bytes(L.deser(op[5]))) else None
-                    ctx.violation(f"{tag}: {be}: {op[0]} raised {ln[2:]}", replay_case(case, None), fid)
-            stored = r.stored()
-            lines = []
-            for req in case["reqs"]:
+            for op in PRE:
+                r.apply(op)
+            ids, ref, lines, wv = [], RefStore(), [], []
+            for op in ops:
+                n = op[0]
+                if n == "add":
+                    ln = r.apply(op)
+                    ok = ln.startswith("c ") and int(ln.split(" ")[1]) >= 0
+                    ids.append(int(ln.split(" ")[1]) if ok else None)
+                    ref.add(op, ok)
+                    if ln.startswith("x "):
+                        fid = "C13-KF1" if (be == "TinyDB" and has_bytes(L.deser(op[5]))) else None
+                        ctx.violation(f"{tag}: {be}: add raised {ln[2:]}", replay_case(case, op), fid)
+                    ctx.cover("hist_add")
+                    continue
+                if n in ("delk", "updk"):
+                    k = op[2]
+                    rid = ids[k] if (k < len(ids) and ids[k] is not None) else 987654
+                    ln = r.apply(["del", op[1], rid] if n == "delk" else ["upd", op[1], rid, op[3]])
+                    if ln.startswith("x "):
+                        ctx.violation(f"{tag}: {be}: {n} raised {ln[2:]}", replay_case(case, op))
+                    elif ln == "c 0":
+                        ref.delete(k) if n == "delk" else ref.update(k, op[3])
+                    ctx.cover(f"hist_{n}:{ln}")
+                    continue
+                if n in ("adv", "gc"):
+                    r.apply(op)
+                    ref.exact = False
+                    ctx.cover(f"hist_{n}")
+                    continue
+                req = op
+                stored = r.stored()
+                if ref.exact:
+                    want, got = ref.tokens(be == "TinyDB"), stored_keys(stored, be == "TinyDB")
+                    if want != got:
+                        ctx.violation(f"{tag}: {be}: the store holds {len(got)} objects, the history of operations (added and "
+                                      f"not deleted) leaves {len(want)}: "
+                                      f"{'an object is missing' if len(got) < len(want) else 'content differs'}",
+                                      replay_case(case, req))
+                    ctx.cover("store_judged")
                 ln = r.apply(req)
                 lines.append(ln)
                 ctx.evals()
                 for what, fid in judge_request(req, ln, stored, be):
                     ctx.violation(f"{tag}: {what}", replay_case(case, req), fid)
+                wv.append(waiver_flags(req, stored))
                 hd = ln.split(" ")[0]
                 nrec = ln.count("{")
                 ctx.cover(f"{be}:{hd}")
                 flt = req[5]
                 if flt not in (None, "!"):
-                    for s in ([flt[0]] if len(flt) == 1 else [flt[0], flt[2]]):
-                        ctx.cover("op_" + s[1])
+                    for st in ([flt[0]] if len(flt) == 1 else [flt[0], flt[2]]):
+                        ctx.cover("op_" + st[1])
+                        ctx.cover("op_on_missing_attribute" if any(spec_lookup(d["dataObject"], st[0]) is MISSING for d in stored)
+                                  else "op_on_present_attribute")
                     ctx.cover("filter_" + ("1" if len(flt) == 1 else {"&": "and", "|": "or", "?": "none"}[flt[1]]))
                 ctx.cover("selected_" + ("0" if nrec == 0 else "some" if nrec < len(stored) else "all"))
-                ctx.nontrivial((be, hd, min(nrec, 6), None if flt in (None, "!") else tuple(s[1] for s in flt if isinstance(s, list)),
+                ctx.nontrivial((be, hd, min(nrec, 6), None if flt in (None, "!") else tuple(st[1] for st in flt if isinstance(st, list)),
                                 req[4] is not None))
-            answers[be] = lines
+            answers[be], waivers[be] = lines, wv
     if "TinyDB" in answers:
-        for req, a, b in zip(case["reqs"], answers["Dictionary"], answers["TinyDB"]):
+        for req, a, b in zip(reqs, answers["Dictionary"], answers["TinyDB"]):
             if req[5] not in (None, "!") and len(req[5]) == 3 and req[5][1] == "?":
                 continue
             ha, ra, _ = L.split_line(a)
@@ -406,41 +614,77 @@ def run_case(ctx, case, tag, model_dict=None, model_tiny=None):
             ctx.cover("side_by_side")
     for be, mo in (("Dictionary", model_dict), ("TinyDB", model_tiny)):
         if mo is not None and be in answers:
-            for req, a, b in zip(case["reqs"], answers[be], mo):
-                if a != b and b.startswith("x ") and not a.startswith("x "):
-                    # the model mirrors C13-KF2 (TypeError); code that answers instead has been repaired there
+            for req, a, b, (kf2, kf3) in zip(reqs, answers[be], mo, waivers[be]):
+                if a == b:
+                    continue
+                if kf2 and b == "x TypeError" and a.startswith("ok"):
+                    # exactly C13-KF2's signature: an order whose attribute is missing / of mixed type in the selection;
+                    # the model mirrors the TypeError, code that answers has been repaired there
                     ctx.cover("kf2_repaired_variant_skips")
                     continue
-                if a != b and be == "TinyDB" and ref_has_seq(req[5]):
+                if kf3 and be == "TinyDB" and a.startswith("ok") and b.startswith("ok"):
+                    # exactly C13-KF3's signature: a list/tuple reference value compared with a stored list/tuple
                     ctx.cover("kf3_repaired_variant_skips")
                     continue
-                if a != b:
-                    ctx.mismatch(f"ldm.query.{be}", replay_case(case, req), a[:300], b[:300])
-                    break
+                ctx.mismatch(f"ldm.query.{be}", replay_case(case, req), a[:300], b[:300])
+                break
     return answers
 
 
-def replay_case(case, req):
-    return {"kind": "query", "json_only": case["json_only"], "adds": case["adds"], "reqs": [req] if req else case["reqs"]}
+def waiver_flags(req, stored):
+    """(kf2, kf3): does the request fall under the exact signature of known finding C13-KF2 / C13-KF3 on this store?"""
+    _, app, types, prio, order, flt = req
+    kf2 = kf3 = False
+    try:
+        if order not in (None, "!") and order["keys"] and not is_legacy_order(order):
+            kf2 = spec_query(stored, set(types), None if flt == "!" else (flt if not (flt and len(flt) == 3 and flt[1] == "?") else None),
+                             order)[0] == "order-undefined"
+        if ref_has_seq(flt):
+            for st in (s_ for s_ in flt if isinstance(s_, list)):
+                if has_seq(L.deser(st[2])) and any(isinstance(spec_lookup(d["dataObject"], st[0]), (list, tuple)) for d in stored):
+                    kf3 = True
+    except Exception:
+        pass
+    return kf2, kf3
+
+
+def replay_case(case, upto):
+    """the history up to and including operation `upto`, without the other requests"""
+    ops = case_ops(case)
+    if upto is None:
+        return {"kind": "query", "json_only": case["json_only"], "ops": ops}
+    idx = next((i for i, op in enumerate(ops) if op is upto), len(ops) - 1)
+    keep = [op for i, op in enumerate(ops[:idx + 1]) if op[0] != "req" or i == idx]
+    return {"kind": "query", "json_only": case["json_only"], "ops": keep}
 
 
 def model_lines(ctx, cases, variants):
+    """per case: (answers of the `req` lines, answers of the `treq` lines), in request order"""
     if not ctx.model_ok:
         return [(None, None)] * len(cases)
     lines, spans = [], []
     for c in cases:
         lines.append(L.init_line(CFG, variants))
-        lines += [L.op_line(op) for op in PRE + c["adds"]]
-        a = len(lines)
-        lines += [L.op_line(r) for r in c["reqs"]]
-        b = len(lines)
-        lines += [L.op_line(["treq"] + r[1:]) for r in c["reqs"]]
-        spans.append((a, b, len(c["reqs"])))
+        lines += [L.op_line(op) for op in PRE]
+        ia, ib = [], []
+        for op in case_ops(c):
+            if op[0] == "req":
+                ia.append(len(lines))
+                lines.append(L.op_line(op))
+                ib.append(len(lines))
+                lines.append(L.op_line(["treq"] + op[1:]))
+            elif op[0] == "delk":
+                lines.append(L.op_line(["del", op[1], op[2]]))
+            elif op[0] == "updk":
+                lines.append(L.op_line(["upd", op[1], op[2], op[3]]))
+            else:
+                lines.append(L.op_line(op))
+        spans.append((ia, ib))
     out = ctx.model("Ldm", lines)
     if any(o == "bad-op" for o in out):
         k = next(i for i, o in enumerate(out) if o == "bad-op")
         raise Infra(f"model driver rejected line: {lines[k][:300]}")
-    return [(out[a:a + n], out[b:b + n]) for a, b, n in spans]
+    return [([out[i] for i in ia], [out[i] for i in ib]) for ia, ib in spans]
 
 
 def kf1_witness(ctx):
@@ -460,17 +704,23 @@ def corpus_cases():
     return [(n, c) for n, c in corpus("C13") if c.get("kind") == "query"]
 
 
+def as_case(c):
+    return {"json_only": c["json_only"], "ops": case_ops(c)}
+
+
 def run(ctx):
-    ctx.extra["rule"] = ("one evaluation = one request through IF.LDM.4 on a real facility, judged by the brute-force "
-                         "specification on the real store content; distinct_nontrivial counts distinct (back-end, outcome, "
-                         "result size, operators, ordered?) tuples")
+    ctx.extra["rule"] = ("one evaluation = one request through IF.LDM.4 on a real facility after a history of add / delete / "
+                         "update / expiry operations, judged by the brute-force specification on the real store content (and "
+                         "the store content by the history); distinct_nontrivial counts distinct (back-end, outcome, result "
+                         "size, operators, ordered?) tuples")
     import props.c12 as c12
     variants = c12.detect_variants()
     kf1_witness(ctx)
     pool = message_pool(ctx, ctx.scale(18, 60))
-    cases = [("corpus:" + n, {"json_only": c["json_only"], "adds": c["adds"], "reqs": c["reqs"]}) for n, c in corpus_cases()]
+    cases = [("corpus:" + n, as_case(c)) for n, c in corpus_cases()]
     ctx.cover("corpus_cases", len(cases))
-    for i in range(ctx.scale(260, 6000)):
+    cases += [(f"boundary:{i}", c) for i, c in enumerate(boundary_cases())]
+    for i in range(ctx.scale(230, 6000)):
         cases.append((f"random:{i}", gen_case(ctx.rng, pool)))
     chunk = 200
     for a in range(0, len(cases), chunk):
@@ -480,16 +730,19 @@ def run(ctx):
             run_case(ctx, c, tag, md, mt)
     if cases:
         c = cases[-1][1]
-        ctx.sample("query", {"objects": len(c["adds"]), "json_only": c["json_only"],
-                             "requests": [[r[2], r[4], flt_text(r[5])] for r in c["reqs"][:4]]})
+        ops = case_ops(c)
+        ctx.sample("query", {"history": [op[0] for op in ops if op[0] != "req"][:20], "json_only": c["json_only"],
+                             "requests": [[r[2], r[4], flt_text(r[5])] for r in ops if r[0] == "req"][:4]})
 
 
 def search(ctx):
     pool = message_pool(ctx, 24)
-    for i in range(ctx.scale(330, 9000)):
-        run_case(ctx, gen_case(ctx.rng, pool), f"search:{i}")
+    for i, c in enumerate(boundary_cases()):
+        run_case(ctx, c, f"search:boundary:{i}")
+    for i in range(ctx.scale(700, 18000)):
         if len(ctx.violations) >= 3:
             break
+        run_case(ctx, gen_case(ctx.rng, pool), f"search:{i}")
 
 
 def replay(ctx, obj):
@@ -500,9 +753,11 @@ def replay(ctx, obj):
     if case.get("kind") != "query":
         raise Infra(f"unknown replay kind {case.get('kind')}")
     n0 = len(ctx.violations) + sum(v["count"] for v in ctx.known_seen.values())
-    ans = run_case(ctx, {"json_only": case["json_only"], "adds": case["adds"], "reqs": case["reqs"]}, "replay")
+    c = as_case(case)
+    ans = run_case(ctx, c, "replay")
+    print("  history:", " ".join(op[0] + (f"({op[2]})" if op[0] in ("delk", "updk") else "") for op in c["ops"] if op[0] != "req"))
     for be, lines in ans.items():
-        for req, ln in zip(case["reqs"], lines):
+        for req, ln in zip([op for op in c["ops"] if op[0] == "req"], lines):
             print(f"  {be}: types={req[2]} order={req[4]} filter={flt_text(req[5])} -> {ln.split(' ')[0]} {ln.count('{')} objects")
     for v in ctx.violations:
         print("  VIOLATED:", v["what"][:300])
